@@ -6,6 +6,8 @@ import itertools
 import os
 import tempfile
 
+import numpy as np
+
 from . import common as C
 
 ANCHORS = [("shangrla/core/Audit.py", ["CVR.merge_cvrs", "CVR.from_raire", "CVR.from_raire_file", "CVR.from_vote",
@@ -34,6 +36,8 @@ class Table:
         self.t = {"": 0}
 
     def __call__(self, s):
+        if isinstance(s, np.integer):
+            s = int(s)              # np.int64(7) == 7 and hash alike: the same dict key
         if not isinstance(s, (str, int)) or isinstance(s, bool):
             return BAD
         key = (type(s).__name__, s)
@@ -52,7 +56,9 @@ def z(n):
 def pv_lit(v, tab):
     if v is None:
         return "PNone"
-    if isinstance(v, bool):
+    if isinstance(v, np.integer):
+        v = int(v)
+    if isinstance(v, (bool, np.bool_)):
         return f"(PBool {C.blit(v)})"
     if isinstance(v, int):
         return f"(PInt {z(v)})"
@@ -98,11 +104,11 @@ def merge_json(case):
 
 
 # ------------------------------------------------------------------ generation: merge_cvrs
-IDS = ["b1", "b2", "b3", 7, "7", "", "b-10"]
+IDS = ["b1", "b2", "b3", 7, "7", "", "b-10", np.int64(7), 0]
 CONTESTS = ["c1", "c2", "c3", "AvB"]
 CANDS = ["A", "B", "C", "D"]
-TPOOLS = [None, None, None, 0, "", "p1", "p2", 1, 2, "0", False]
-ODD_FLAGS = [None, 0, 1, "", "x"]
+TPOOLS = [None, None, None, 0, "", "p1", "p2", 1, 2, "0", False, np.int64(0), np.int64(2)]
+ODD_FLAGS = [None, 0, 1, 0, 1, "", "x", np.bool_(True), np.bool_(False), np.int64(1)]
 
 
 def gen_votes(rng):
@@ -141,8 +147,15 @@ def build(spec, rng=None):
             if not (spec[k] is default and rng.random() < 0.5):
                 d[k] = spec[k]
         return CVR.from_dict([d])[0]
-    return CVR(id=spec["id"], votes=spec["votes"], phantom=spec["phantom"], pool=spec["pool"],
-               tally_pool=spec["tally_pool"])
+    kw = {"id": spec["id"], "votes": spec["votes"], "phantom": spec["phantom"], "pool": spec["pool"],
+          "tally_pool": spec["tally_pool"]}
+    if rng is not None:
+        if spec["votes"] == {} and rng.random() < 0.6:
+            del kw["votes"]            # no votes argument: the constructor's (shared) default dict
+        for k, default in (("phantom", False), ("pool", False), ("tally_pool", None)):
+            if spec[k] is default and rng.random() < 0.3:
+                del kw[k]
+    return CVR(**kw)
 
 
 def call_merge(objs, step=0, passed=None):
@@ -152,14 +165,14 @@ def call_merge(objs, step=0, passed=None):
     passed = passed or [None] * len(objs)
     case = {"in": [p if p is not None else snap(c) for p, c in zip(passed, objs)], "step": step, "first_obj": {}}
     for c, r in zip(objs, case["in"]):
-        case["first_obj"].setdefault(repr((type(r["id"]).__name__, r["id"])), id(c))
+        case["first_obj"].setdefault(repr(idkey(r["id"])), id(c))
     try:
         out = CVR.merge_cvrs(objs)
     except Exception as e:  # noqa
         case["out"] = ("err", exc_enum(e), f"{type(e).__name__}"[:100])
         return case, None
     case["out"] = ("ok", [snap(c) for c in out])
-    case["same_obj"] = [case["first_obj"].get(repr((type(c.id).__name__, c.id))) == id(c) for c in out]
+    case["same_obj"] = [case["first_obj"].get(repr(idkey(c.id))) == id(c) for c in out]
     return case, out
 
 
@@ -212,14 +225,23 @@ def flag_combinations():
 
 # ------------------------------------------------------------------ oracle: merge_cvrs
 def py_same(a, b):
-    return a == b
+    return bool(a == b)
+
+
+def is_tf(x):
+    return isinstance(x, (bool, np.bool_))
+
+
+def idkey(i):
+    i = int(i) if isinstance(i, np.integer) else i
+    return (type(i).__name__, i)
 
 
 def oracle_merge(case):
     recs = case["in"]
     groups = {}
     for r in recs:
-        groups.setdefault((type(r["id"]).__name__, r["id"]), []).append(r)
+        groups.setdefault(idkey(r["id"]), []).append(r)
     conflict = False
     for g in groups.values():
         tps = [r["tally_pool"] for r in g if r["tally_pool"] is not None]
@@ -232,7 +254,7 @@ def oracle_merge(case):
         return [f"merge_cvrs raises {o[2]} although no card has conflicting tally pools"]
     out = o[1]
     bad = []
-    if [(type(r["id"]).__name__, r["id"]) for r in out] != list(groups):
+    if [idkey(r["id"]) for r in out] != list(groups):
         return ["result is not one record per identifier in first-appearance order"]
     for r, g in zip(out, groups.values()):
         want = {}
@@ -243,14 +265,19 @@ def oracle_merge(case):
             bad.append("merged contests are not the union of the records' contests")
         elif any(r["votes"][k] != want[k] for k in want):
             bad.append("within a contest the merged votes are not those of the latest record")
-        if all(isinstance(x["phantom"], bool) for x in g):
-            if r["phantom"] is not all(x["phantom"] for x in g):
-                bad.append("merged card is a phantom although not all records were (or the reverse)")
-        if all(isinstance(x["pool"], bool) for x in g):
-            if not isinstance(r["pool"], bool):
-                bad.append("pool of a merged card is not a true/false value")
-            elif r["pool"] != any(x["pool"] for x in g):
-                bad.append("merged card is pooled although no record was (or the reverse)")
+        # truthiness for any flag representation (bool, np.bool_, 0/1, None ...); true/false-valuedness when all inputs are
+        if bool(r["phantom"]) != all(bool(x["phantom"]) for x in g):
+            bad.append("merged card is a phantom although not all records were (or the reverse)")
+        elif all(is_tf(x["phantom"]) for x in g) and not is_tf(r["phantom"]):
+            bad.append("phantom flag of a merged card is not a true/false value")
+        try:
+            pooled = bool(r["pool"])
+        except Exception:  # noqa
+            pooled = None
+        if all(is_tf(x["pool"]) for x in g) and not is_tf(r["pool"]):
+            bad.append("pool of a merged card is not a true/false value")
+        elif pooled != any(bool(x["pool"]) for x in g):
+            bad.append("merged card is pooled although no record was (or the reverse)")
         tps = [x["tally_pool"] for x in g if x["tally_pool"] is not None]
         if (not tps and r["tally_pool"] is not None) or (tps and (r["tally_pool"] is None or not py_same(r["tally_pool"], tps[0])
                                                                   or type(r["tally_pool"]) is not type(tps[0]))):
@@ -341,6 +368,7 @@ def run_raire(skip, rows, phantom, wellformed, via_file):
         else:
             cvrs, n_read = CVR.from_raire([list(r) for r in rows], phantom=phantom)
             case["out"] = ("ok", [snap(c) for c in cvrs], int(n_read))
+            case["_objs"] = list(cvrs)
     except Exception as e:  # noqa
         case["out"] = ("err", exc_enum(e), type(e).__name__)
     return case
@@ -412,21 +440,51 @@ def run(ctx, res):
         if len(set(ids)) < len(ids):
             res.nontrivial.add(repr(c["in"]))
     stats["merge_errors"] = sum(c["out"][0] == "err" for c in cases)
+    stats["merge_no_votes_argument"] = "constructor default dict used for ~60% of records with empty votes"
     stats["merge_reused_objects"] = sum(c["step"] > 0 for c in cases)
     stats["merge_with_repeated_id"] = sum(len({repr(r["id"]) for r in c["in"]}) < len(c["in"]) for c in cases)
     stats["merge_nonbool_flags"] = sum(any(not isinstance(r["phantom"], bool) or not isinstance(r["pool"], bool)
                                            for r in c["in"]) for c in cases)
     stats["merge_contest_overwritten"] = sum(
-        any(k in a["votes"] for i, a in enumerate(c["in"]) for b in c["in"][i + 1:] if b["id"] == a["id"] and type(b["id"]) is type(a["id"])
+        any(k in a["votes"] for i, a in enumerate(c["in"]) for b in c["in"][i + 1:] if idkey(b["id"]) == idkey(a["id"])
             for k in b["votes"]) for c in cases)
 
     rcases, fcases = [], []
     for j in range(ctx.n(500, 6000)):
         skip, rows, wf = gen_raire(rng, malformed=rng.random() < 0.25)
-        if j % 3 == 0:
+        if j % 3 == 0:          # the same content through both readers: file, then in memory
             fcases.append(run_raire(skip, rows, False, wf, True))
+            rcases.append(run_raire(skip, rows, False, wf, False))
+            a, b = fcases[-1]["out"], rcases[-1]["out"]
+            if a[:3] != b[:3]:
+                res.oracle_violations.append({"what": "from_raire_file and from_raire disagree on the same content",
+                                              "input": raire_json(fcases[-1]), "observed": C.jsonable([a, b]),
+                                              "signature": "C18:readers disagree"})
         else:
             rcases.append(run_raire(skip, rows, rng.random() < 0.3, wf, False))
+    # objects returned by from_raire merged again with new records for the same cards (and the reader called again after)
+    mix = []
+    for c in [c for c in rcases if c.get("_objs")][:ctx.n(60, 600)]:
+        objs = c["_objs"]
+        ids = [o.id for o in objs][:3] + ["zz"]
+        specs = [gen_spec(rng, ids, True, [None, None, "p1"]) for _ in range(rng.randint(1, 3))]
+        passed = [intended(sp) for sp in specs]
+        case, _ = call_merge(objs + [build(sp, rng) for sp in specs], 3, [None] * len(objs) + passed)
+        mix.append(case)
+        again = run_raire(c["skip"], c["rows"], c["phantom"], c["wellformed"], False)
+        if again["out"] != c["out"]:
+            res.oracle_violations.append({"what": "from_raire gives a different result when called again on the same rows",
+                                          "input": raire_json(c), "observed": C.jsonable(again["out"]),
+                                          "signature": "C18:from_raire not repeatable"})
+    crm = C.run_corr(ctx.pid, "mix", IMPORTS, "list rec * res (list rec)", mix, merge_lit, "agree_merge",
+                     shard=-(-max(len(mix), 1) // 4), show="show_merge")
+    res.corr.append(("CVR.merge_cvrs on from_raire's objects plus new records vs Merge.merge_cvrs", crm, merge_json))
+    res.evaluations += len(mix)
+    for c in mix:
+        res.oracle_runs += 1
+        for what in dict.fromkeys(oracle_merge(c)):
+            res.oracle_violations.append({"what": what, "input": merge_json(c), "signature": f"C18:{what}"})
+    stats["merge_of_reader_objects"] = len(mix)
     cr2 = C.run_corr(ctx.pid, "raire", IMPORTS, "nat * list (list Z) * bool * res (list rec * Z)", rcases, raire_lit,
                      "agree_raire", shard=-(-len(rcases) // 8), show="show_raire")
     res.corr.append(("CVR.from_raire vs Merge.from_raire", cr2, raire_json))
@@ -470,7 +528,10 @@ def run(ctx, res):
     stats["raire_file_cases"] = len(fcases)
     stats["raire_errors"] = sum(c["out"][0] == "err" for c in rcases + fcases)
     stats["raire_malformed_or_odd_skip"] = sum(not c["wellformed"] or c["skip"] != int(c["rows"][0][0]) for c in rcases + fcases)
-    res.rule = ("the model and the oracle get the values PASSED to the constructor / CVR.from_dict (half each, default keys "
+    res.rule = ("ids / pool labels / flags also as np.int64 / np.bool_ / 0-1 ints; records with empty votes mostly built WITHOUT a votes "
+                "argument (constructor default); every file case is also read in memory and the two results compared; from_raire's "
+                "objects are merged again with new records and the reader is called again. "
+                "the model and the oracle get the values PASSED to the constructor / CVR.from_dict (half each, default keys "
                 "sometimes omitted), never values read back from a fresh object; merge_cvrs: every (phantom, pool, tally_pool in None/0/''/'p1'/'p2') combination for two records of one id and "
                 "all tally-pool triples for three; generated lists of 1..7 real CVR objects over 1..3 ids (str/int/'' ids), votes over "
                 "4 contests x 4 candidates incl. empty votes / empty contests / later record omitting candidates, bool flags (80%) or "
